@@ -321,7 +321,9 @@ class TotalWorld(OracleWorld):
                 self.finding(st, "may-panic-call", "call of %s, which can panic, is not discharged by any rule" % p, term)
                 return self.fresh(st, self.dest_ty(st, term), "ext")
         if p in m.models and p not in OVERRIDE_DEFAULT:
-            return None
+            r = m.models[p](m, st, callee, args, term)
+            if r is not None:
+                return r
         return self.fresh(st, self.dest_ty(st, term), "ext:" + callee["name"])
 
     def indirect_call(self, m, st, fval, args, term):
